@@ -5,7 +5,7 @@
    outcome of a call incl. the state left behind when it raises part-way, the public attributes, the constructor
    path): Model/SelectX.v; proofs: Proofs/SelectXP.v, SelectXRefP.v, SelectXLawsP.v, SelectXFormsP.v, SelectXExP.v. *)
 From Coq Require Import ZArith List Bool String Ascii Permutation Sorted.
-From KV Require Import Base.Sx Base.Str Base.SelSlice Gen.Generated Model.Select Model.SelectX
+From KV Require Import Base.Sx Base.Str Base.SelSlice Gen.Generated Model.Select Model.SelectX Model.SelectA Proofs.SelectAP
   Proofs.SelectBaseP Proofs.SelectP Proofs.SelectLawsP Proofs.SelectCritP Proofs.SelectExP
   Proofs.SelectXP Proofs.SelectXRefP Proofs.SelectXLawsP Proofs.SelectXFormsP Proofs.SelectXExP.
 Import ListNotations.
@@ -370,11 +370,11 @@ Proof. exact window_out_of_range. Qed.
    _refuted : false for a call that raises while a criterion is applied - from a reachable state the masks change,
               shape disagrees with the masks, the offending criterion is retained and the next, unrelated call
               (channels=0) raises too (finding F74). *)
-Theorem C02_failed_call_atomic_partial : forall xo s xkw oc s', xselect xo s xkw = (oc, s') ->
+Theorem C02_body_rejections_atomic : forall xo s xkw oc s', xselect xo s xkw = (oc, s') ->
   oc = OTypeError \/ oc = OIndexError -> s' = s.
 Proof. exact rejected_untouched. Qed.
 
-Theorem C02_failed_call_atomic_refuted :
+Theorem C02_body_alone_not_atomic :
   exists xo s xkw s' later,
     xreach xo s /\ NoDup (map fst xkw) /\ xselect xo s xkw = (OFail, s')
     /\ masks_of (x_core s') <> masks_of (x_core s)
@@ -383,10 +383,10 @@ Theorem C02_failed_call_atomic_refuted :
     /\ lookup "channels" (elab_kw (x_vocab xo) later) <> None /\ List.length later = 1%nat
     /\ fst (xselect xo s' later) = OFail.
 Proof. exact failed_call_not_atomic. Qed.
-Print Assumptions C02_failed_call_atomic_refuted.
+Print Assumptions C02_body_alone_not_atomic.
 
 (* keyword order IS visible in the state left by a failed call (so C02_multiwindow_kw_order needs its hypothesis) *)
-Theorem C02_failed_call_kw_order_refuted :
+Theorem C02_body_alone_failed_call_sees_kw_order :
   exists xo s xkw xkw', xreach xo s /\ Permutation xkw xkw' /\ NoDup (map fst xkw)
     /\ fst (xselect xo s xkw) = OFail /\ fst (xselect xo s xkw') = OFail
     /\ tk (x_core (snd (xselect xo s xkw))) <> tk (x_core (snd (xselect xo s xkw'))).
@@ -561,6 +561,135 @@ Proof.
   pose proof ex_masks as M. repeat split; vm_compute; reflexivity.
 Qed.
 
+(* ------------------------------------------------------------------ part 3: the decorated method is all-or-nothing *)
+(* `xselect` above is the BODY of DataSet.select; the caller reaches it through the decorator
+   `_restore_selection_on_error` (repair of finding F74), modelled by `xselect_a` (Model/SelectA.v): on an exception of
+   whatever class the handler puts back the attributes named in the generated list `sel_atomic_restores`.  The
+   theorems `C02_body_*`, `C02_failed_call_state`, `C02_poison_persists`, `C02_recovery` above describe what the body
+   alone would leave behind - i.e. what the decorator protects the caller from. *)
+
+(* the decorator is on `select` and its handler restores exactly the eight components of the selection state *)
+Theorem C02_atomic_decorator_is_documented :
+  sel_atomic = true
+  /\ sel_atomic_restores = ["_time_keep"; "_freq_keep"; "_corrprod_keep"; "_selection"; "spw"; "subarray";
+                            "_weights_keep"; "_flags_keep"]%string
+  /\ (forall old cur, x_pub cur = x_pub old -> restore old cur = old)
+  /\ (forall xo s xkw, fst (xselect xo s xkw) <> OOk -> x_pub (snd (xselect xo s xkw)) = x_pub s).
+Proof.
+  destruct atomic_is_documented as [A B]. split; [exact A|]. split; [exact B|].
+  split; [exact restore_is_old | exact xselect_pub_unchanged].
+Qed.
+
+(* ATOMICITY at full strength (any state, any call, any exception): a call that is not accepted leaves the WHOLE
+   state - masks, retained criteria, weights / flags, window, subarray, public attributes - exactly as it was; an
+   accepted call is the body's accepted call. *)
+Theorem C02_failed_call_atomic : forall xo s xkw,
+  (fst (xselect_a xo s xkw) <> OOk -> snd (xselect_a xo s xkw) = s)
+  /\ fst (xselect_a xo s xkw) = fst (xselect xo s xkw)
+  /\ (forall s', xselect_a xo s xkw = (OOk, s') <-> xselect xo s xkw = (OOk, s')).
+Proof.
+  intros xo s xkw. split; [apply failed_call_atomic|]. split; [apply xselect_a_fst | intro s'; apply xselect_a_ok].
+Qed.
+Print Assumptions C02_failed_call_atomic.
+
+(* After ANY history through the decorated method - accepted, rejected and failed calls in any order - no failure
+   is pending: the state is `xreach`, so every theorem of part 2 stated for `xreach` applies, and the strong
+   invariant holds (every retained criterion holds of its mask, public attributes = those of the masks). *)
+Theorem C02_atomic_any_history_is_clean : forall xo calls, has_windows xo ->
+  Forall (fun c => NoDup (map fst c)) calls ->
+  let s := xafter_a xo (xinit xo) calls in
+  xreach_a xo s /\ xreach xo s /\ XInv xo s.
+Proof.
+  intros xo calls H N s. assert (R : xreach_a xo s) by (apply xafter_a_reach; [constructor | exact N]).
+  split; [exact R|]. split; [apply xreach_a_clean; exact R | apply xreach_a_XInv; assumption].
+Qed.
+
+(* MAIN, whole histories, NO side condition: outcome class and selection (three masks, window, subarray) after
+   EVERY call of EVERY history are those of the documented rule - a failed call included (it changes nothing). *)
+Theorem C02_atomic_history_refines : forall xo s calls, has_windows xo -> xreach_a xo s ->
+  Forall (fun c => NoDup (map fst c)) calls ->
+  xrun_a xo s calls = xspec_run xo (xm_of s) calls.
+Proof. intros xo s calls H R. apply xhistory_refines_a. apply xreach_a_XInv; assumption. Qed.
+Print Assumptions C02_atomic_history_refines.
+
+(* keyword order is irrelevant for every call, failing ones too, now and after any continuation; a failing call
+   fails with the same class in any order and leaves the same (old) state *)
+Theorem C02_atomic_kw_order : forall xo s xkw xkw' rest, has_windows xo -> xreach_a xo s ->
+  Permutation xkw xkw' -> NoDup (map fst xkw) -> Forall (fun c => NoDup (map fst c)) rest ->
+  xrun_a xo s (xkw :: rest) = xrun_a xo s (xkw' :: rest)
+  /\ (fst (xselect_a xo s xkw) <> OOk -> xselect_a xo s xkw' = (fst (xselect_a xo s xkw), s)).
+Proof.
+  intros xo s xkw xkw' rest H R P N Nr. pose proof (xreach_a_XInv xo s H R) as I.
+  split; [apply xkw_order_a; assumption | apply failed_kw_order_a; assumption].
+Qed.
+
+(* NO POISON: a call that is not accepted is invisible to everything that follows (outcomes, selections, state) *)
+Theorem C02_atomic_failed_call_invisible : forall xo s bad rest, fst (xselect_a xo s bad) <> OOk ->
+  xrun_a xo s (bad :: rest) = (fst (xselect_a xo s bad), xm_of s) :: xrun_a xo s rest
+  /\ xafter_a xo s (bad :: rest) = xafter_a xo s rest.
+Proof. exact failed_call_invisible. Qed.
+
+(* repeating ANY call changes nothing: same outcome, same selection, same public attributes *)
+Theorem C02_atomic_idempotent : forall xo s xkw, has_windows xo -> xreach_a xo s -> NoDup (map fst xkw) ->
+  let r1 := xselect_a xo s xkw in
+  let r2 := xselect_a xo (snd r1) xkw in
+  fst r2 = fst r1 /\ xm_of (snd r2) = xm_of (snd r1) /\ x_pub (snd r2) = x_pub (snd r1).
+Proof. intros xo s xkw H R. apply xidempotent_a. apply xreach_a_XInv; assumption. Qed.
+
+(* non-vacuity: on the history of the example the body leaves xs6 <> xs5 after `corrprods=[7], scans='slew'` and
+   then fails `channels=0`; the decorated method leaves xs5, accepts `channels=0` (shape 1 x 1 x 1), and the whole
+   ten-call history (5 accepted, 1 raised part-way, 1 accepted, IndexError, TypeError, select()) equals the rule *)
+Example C02_atomic_example :
+  xselect ex_xobs xs5 xc6 = (OFail, xs6) /\ xs6 <> xs5
+  /\ xselect_a ex_xobs xs5 xc6 = (OFail, xs5)
+  /\ fst (xselect ex_xobs xs6 xc7) = OFail
+  /\ fst (xselect_a ex_xobs xs5 xc7) = OOk
+  /\ p_shape (x_pub (snd (xselect_a ex_xobs xs5 xc7))) = [1; 1; 1]
+  /\ xrun_a ex_xobs xs0 [xc1; xc2; xc3; xc4; xc5; xc6; xc7; xc_neg; xc_bogus; xc8]
+     = xspec_run ex_xobs (xm_of xs0) [xc1; xc2; xc3; xc4; xc5; xc6; xc7; xc_neg; xc_bogus; xc8]
+  /\ map fst (xrun_a ex_xobs xs0 [xc1; xc2; xc3; xc4; xc5; xc6; xc7; xc_neg; xc_bogus; xc8])
+     = [OOk; OOk; OOk; OOk; OOk; OFail; OOk; OIndexError; OTypeError; OOk]
+  /\ xreach_a ex_xobs (xafter_a ex_xobs (xinit ex_xobs) [xc1; xc2; xc3; xc4; xc5; xc6])
+  /\ xafter_a ex_xobs (xinit ex_xobs) [xc1; xc2; xc3; xc4; xc5; xc6] = xs5.
+Proof. exact ex_atomic_instance. Qed.
+
+(* A switching call that also names a criterion of the THIRD dimension (default reset): the call changes the window
+   and carries a product criterion, or changes the subarray and carries a channel criterion - then all three
+   dimensions start afresh: each mask is the base of the new window / subarray ANDed with this call's criteria of
+   that dimension, whatever was selected before (the old products / channels are NOT ANDed in). *)
+Theorem C02_switching_call_with_third_dimension : forall xo s xkw s', has_windows xo -> xreach_a xo s ->
+  NoDup (map fst xkw) -> xselect_a xo s xkw = (OOk, s') ->
+  let kw := elab_kw (x_vocab xo) xkw in
+  let o := view_at xo (x_spw s') (x_sub s') in
+  lookup "reset" kw = None ->
+  (x_spw s' <> x_spw s /\ hits kw (doc_group DB) = true) \/ (x_sub s' <> x_sub s /\ hits kw (doc_group DF) = true) ->
+  forall d, mget d (x_core s') = fold_left mand (spec_crit_masks o d kw) (xbase xo o (x_spw s') (x_sub s') d).
+Proof. intros xo s xkw s' H R. apply switch_third_dimension. apply xreach_a_XInv; assumption. Qed.
+
+(* pol='h' keeps products [1;1;0] of subarray 0; then spw=1, corrprods=[2]: products [0;0;1] - not [0;0;0] *)
+Example C02_switching_call_example :
+  bk (x_core (xafter_a ex_xobs xs0 [xc_pol])) = map bb [1;1;0]
+  /\ fst (xselect_a ex_xobs (xafter_a ex_xobs xs0 [xc_pol]) xc_switch) = OOk
+  /\ bk (x_core (xafter_a ex_xobs xs0 [xc_pol; xc_switch])) = map bb [0;0;1]
+  /\ keys (sel (x_core (xafter_a ex_xobs xs0 [xc_pol; xc_switch]))) = ["spw"; "subarray"; "corrprods"]%string
+  /\ x_spw (xafter_a ex_xobs xs0 [xc_pol; xc_switch]) = 1
+  /\ hits (elab_kw ex_vocab xc_switch) (doc_group DB) = true /\ lookup "reset" (elab_kw ex_vocab xc_switch) = None.
+Proof. exact ex_switch_instance. Qed.
+
+(* Names with INNER blanks: a non-empty string without comma and without blanks at its two ends is ONE item, itself
+   (so compscans='drift scan' is compscans=['drift scan']); only the blanks around a comma-separated field go. *)
+Theorem C02_inner_blanks_are_part_of_the_name : forall name, name <> EmptyString -> forallb clean [name] = true ->
+  sel_to_list (XBare (AStr name)) = Some [AStr name].
+Proof. exact single_name_kept. Qed.
+
+Example C02_inner_blanks_example :
+  sel_to_list (XBare (AStr "drift scan")) = Some [AStr "drift scan"]
+  /\ sel_to_list (XBare (AStr " noise diode ,drift scan")) = Some [AStr "noise diode"; AStr "drift scan"]
+  /\ sel_to_list (XBare (AStr "~drift scan, track")) = sel_to_list (XSeq [AStr "~drift scan"; AStr "track"])
+  /\ mapM (elab_scan blank_labels) [AStr "drift scan"; AStr "~noise diode"; AStr "driftscan"]
+     = Some [SName 2; SNot 3; SName unknown_id].
+Proof. exact ex_inner_blank_instance. Qed.
+
 (* ------------------------------------------------------------------ assumptions of everything above *)
 (* One Print Assumptions over the tuple of ALL theorems and examples of this file (individual ones are printed
    above for the principal theorems only: each costs about a second of checking time). *)
@@ -598,9 +727,9 @@ Definition C02_all_theorems :=
    C02_window_change_resets,
    C02_multiwindow_flags_weights,
    C02_window_out_of_range,
-   C02_failed_call_atomic_partial,
-   C02_failed_call_atomic_refuted,
-   C02_failed_call_kw_order_refuted,
+   C02_body_rejections_atomic,
+   C02_body_alone_not_atomic,
+   C02_body_alone_failed_call_sees_kw_order,
    C02_failed_call_state,
    C02_poison_persists,
    C02_recovery,
@@ -611,5 +740,17 @@ Definition C02_all_theorems :=
    C02_index_forms_example,
    C02_public_attributes,
    C02_dumps_ascending,
-   C02_multiwindow_example).
+   C02_multiwindow_example,
+   C02_atomic_decorator_is_documented,
+   C02_failed_call_atomic,
+   C02_atomic_any_history_is_clean,
+   C02_atomic_history_refines,
+   C02_atomic_kw_order,
+   C02_atomic_failed_call_invisible,
+   C02_atomic_idempotent,
+   C02_atomic_example,
+   C02_switching_call_with_third_dimension,
+   C02_switching_call_example,
+   C02_inner_blanks_are_part_of_the_name,
+   C02_inner_blanks_example).
 Print Assumptions C02_all_theorems.
